@@ -301,6 +301,76 @@ Definition run_case_from (c : case) (o : oracle) (s : st) : obs :=
        end.
 Definition run_case (c : case) (o : oracle) : obs := run_case_from c o st0.
 
+(* ---------- overlapping creations of the same registered entry ----------
+   While the fillConf of one creation runs, another creation of the same (type, name) runs to
+   completion: a nested component of the same entry inside the config (the config hooks call
+   plugin.New from inside the decode of the outer config), or a second goroutine creating the
+   same name whose whole creation falls into the first one's decode window.  Configs are values
+   of one creation: the outer constructor must still get ITS config. *)
+
+Record reround := mkRe {
+  re_before : list event;      (* outer: default, fill entered *)
+  re_inner : op;               (* the whole inner Registry.New (its own fill does not re-enter) *)
+  re_after : list event;       (* outer: constructor (and produced factory) *)
+  re_out : outcome
+}.
+
+(* defaultConfigContainer.Get with a fillConf that performs an inner New before it writes *)
+Definition get_conf_re (sh : shape) (o : oracle) (s : st) : st * list event * op * (err + carg) :=
+  if is_nocfg (sh_cfg sh) then
+    let n := s_fill s in
+    let '(s1, evi, outi) := reg_new sh true o (bump_fill s) in
+    (s1, [EvFill n FTEmpty vzero], (evi, outi), if o_ffail o n then inl (EFill n) else inr ANone)
+  else
+    let '(s1, ev1, base) := new_base sh o s in
+    let id := s_alloc s1 in
+    let s2 := bump_alloc s1 in
+    let n := s_fill s2 in
+    let '(s3, evi, outi) := reg_new sh true o (bump_fill s2) in
+    (s3, ev1 ++ [EvFill n (FTConf id) base], (evi, outi),
+     if o_ffail o n then inl (EFill n) else inr (mk_arg (sh_cfg sh) id (o_fill o n base))).
+
+(* Registry.New with such a fill *)
+Definition reg_new_re (sh : shape) (o : oracle) (s : st) : st * reround :=
+  match get_conf_re sh o s with
+  | (s1, ev1, inner, inl e) => (s1, mkRe ev1 inner [] (OErr e))
+  | (s1, ev1, inner, inr a) =>
+      let '(s2, ev2, out) := new_plugin sh o s1 a in (s2, mkRe ev1 inner ev2 out)
+  end.
+
+(* one call of a factory made from a plugin constructor that takes a config, with such a fill *)
+Definition call_re (sh : shape) (we : bool) (o : oracle) (s : st) : st * reround :=
+  match get_conf_re sh o s with
+  | (s1, ev1, inner, inl e) => (s1, mkRe ev1 inner [] (route we e))
+  | (s1, ev1, inner, inr a) =>
+      match call_ctor sh o s1 a with
+      | (s2, ev2, inl e) => (s2, mkRe ev1 inner ev2 (route we e))
+      | (s2, ev2, inr n) => (s2, mkRe ev1 inner ev2 (OOk (mkProd n a None)))
+      end
+  end.
+
+Fixpoint run_re (step : st -> st * reround) (s : st) (k : nat) : list reround :=
+  match k with
+  | O => []
+  | S k' => let '(s1, r) := step s in r :: run_re step s1 k'
+  end.
+
+(* observation of a "nest" case: k News, or (plugin constructor with a config) NewFactory - whose
+   trial config is got with the same re-entering fill - followed by k calls *)
+Inductive nest_obs :=
+| NestNew (rounds : list reround)
+| NestFactory (cev : list event) (cinner : op) (cerr : option err) (rounds : list reround).
+
+Definition run_nest (sh : shape) (rq : req) (o : oracle) (k : nat) : nest_obs :=
+  match rq with
+  | ReqNew => NestNew (run_re (reg_new_re sh o) st0 k)
+  | ReqFactory we =>
+      match get_conf_re sh o st0 with
+      | (s1, ev1, inner, inl e) => NestFactory ev1 inner (Some e) []
+      | (s1, ev1, inner, inr _) => NestFactory ev1 inner None (run_re (call_re sh we o) s1 k)
+      end
+  end.
+
 (* ====================================================================================
    Executable specification, evaluated on an observation (of the model in the theorems, of
    the implementation in the correspondence run).  It never looks at the model functions
@@ -539,3 +609,27 @@ Definition fresh_b (c : case) (o : oracle) (ob : obs) : bool :=
 
 Definition spec_b (c : case) (o : oracle) (ob : obs) : bool :=
   configured_b c o ob && errors_b c o ob && fresh_b c o ob.
+
+(* -- overlapping creations --------------------------------------------------------- *)
+
+(* the outer creation, with the inner one cut out, is a correct round of its own: its
+   constructor got the config made from ITS default and ITS fill; so is the inner one *)
+Definition reround_ok (sh : shape) (o : oracle) (we : bool) (r : reround) : bool :=
+  let outer := (re_before r ++ re_after r, re_out r) in
+  op_configured sh true o None outer && op_errors sh o we outer &&
+  op_configured sh true o None (re_inner r) && op_errors sh o true (re_inner r).
+
+Definition nest_b (sh : shape) (rq : req) (o : oracle) (ob : nest_obs) : bool :=
+  match ob, rq with
+  | NestNew rounds, ReqNew => forallb (reround_ok sh o true) rounds
+  | NestFactory cev cinner cerr rounds, ReqFactory we =>
+      stops_at_error sh o cev && ctor_args_configured sh true o cev &&
+      op_configured sh true o None cinner && op_errors sh o true cinner &&
+      match errors_evs sh o cev, cerr with
+      | None, None => forallb (reround_ok sh o we) rounds
+      | Some e, Some e' => err_eqb e e' && match rounds with [] => true | _ => false end
+      | _, _ => false
+      end
+  | _, _ => false
+  end.
+
